@@ -246,6 +246,9 @@ func judgeC17(t *testing.T, sc C17Script) (key, msg string, res *c17Result) {
 	})
 	mu.Lock()
 	defer mu.Unlock()
+	if core.IsInconclusive(err) {
+		return "inconclusive", err.Error(), nil
+	}
 	if res == nil {
 		return "harness/bubble", fmt.Sprint(err), nil
 	}
@@ -291,6 +294,10 @@ func TestC17(t *testing.T) {
 	rapid.Check(t, func(rt *rapid.T) {
 		sc := genC17(rt)
 		key, msg, res := judgeC17(t, sc)
+		if key == "inconclusive" {
+			st.AddInconclusive()
+			return
+		}
 		nt := false
 		if res != nil && res.Changes >= 3 {
 			for _, e := range sc.Events {
